@@ -8,7 +8,11 @@ Statement token: `<label|->:<op>[:arg]*`, ops `org:v rorg:d align:n:<fill|-> res
 phase:v dephase save restore listing:<0|1> struct:<name|->:<s|u> endstruct nop`.
 
 mode `c10plan`  request `<orgLoad> <cpu0> stmt*` → per statement the symbols the MODEL defines
-                (`path.path/leaf,…` or `-`), so that the harness can ask the real assembler for their values.
+                (`path.path/leaf,…` or `-`; path = ids of the enclosing named structures, leaf `LEN` = length symbol), so that
+                the harness can ask the real assembler for their values.
+
+The model run starts from `Addr.init cpu0`: the state after a leading `CPU` statement, and equally (theorem `C10_init_cmdline`)
+the state after the first statement (OUTRADIX) of a source without CPU statement whose target came from `asl -cpu`.
 
 mode `c10`      request `<orgLoad> <cpu0> <nstmt> stmt* obs* end=<errs|-> sig=<n> p=<hex|->`
                 obs = `x` (no observation) | `<dollar>,<cpu>,<liston>,<seg>,<v;v;…|->,<e;e;…|->`
@@ -145,15 +149,18 @@ def lookupVal (syms : List Sym) (vals : List Int) (y : Sym) : Option Int :=
   | _, _ => none
 
 /-- SPEC run against the observations.  `plan` = the symbols observed per statement (from the model's plan). -/
-def specLoop (a : AddrSpec.A) : List (Stmt × Nat) → List (Option Obs) → List (List Sym) → Nat → Bool →
+def specLoop (a : AddrSpec.A) : List (Stmt × Nat) → List (Option Obs) → List (List Sym) → Nat → Bool → Bool →
     List (Nat × Nat × Int × Int × Nat × Option Nat) → SpecRes
-  | [], _, _, i, _, em => { checked := i, emits := em.reverse, final := some a }
-  | (st, tag) :: rest, obs, plan, i, tainted, em =>
+  | [], _, _, i, _, _, em => { checked := i, emits := em.reverse, final := some a }
+  | (st, tag) :: rest, obs, plan, i, tainted, big, em =>
     let alignZero := match st.op with | .align n _ => decide (n = 0) | _ => false
     let tainted' := tainted || (match st.op with
       | .org _ => a.frames.isEmpty && decide (AddrSpec.off a a.seg ≠ 0)
       | _ => false)
-    let sigOf (dflt : String) : String := if tainted' then "org-under-phase" else dflt
+    -- a structure body that has reached 2^31 units (`TotLen`, `CodeLen : LongInt`): known finding
+    let big' := big || a.frames.any fun f => decide (f.cur ≥ 2147483648) || decide (f.len ≥ 2147483648)
+    let sigOf (dflt : String) : String :=
+      if tainted' then "org-under-phase" else if big' then "struct-length-wraps-at-2^31" else dflt
     match AddrSpec.step AddrSpec.manualSegs a st with
     | .unspecified => { checked := i, stop := s!"unspecified@{i}" }
     | .reject =>
@@ -183,7 +190,7 @@ def specLoop (a : AddrSpec.A) : List (Stmt × Nat) → List (Option Obs) → Lis
               let gap := AddrSpec.alignUp (AddrSpec.dollar a) n - AddrSpec.dollar a
               if gap > 0 then (a.cpu, a.seg, a.pc a.seg, gap, tag, some f) :: em else em
             | _, _ => em
-          specLoop a' rest obs.tail plan.tail (i + 1) tainted' em'
+          specLoop a' rest obs.tail plan.tail (i + 1) tainted' big' em'
       | _ => { fail := some s!"no-observation@{i}", sig := if alignZero then "align-zero" else sigOf "-", checked := i }
 
 def specCellsOf (em : List (Nat × Nat × Int × Int × Nat × Option Nat)) : List PFile.Cell :=
@@ -230,7 +237,7 @@ def handle (line : String) : String :=
               let show_ (rs : List PFile.Rec) : String := ";".intercalate (rs.map fun r => s!"{r.cpu.toNat}/{r.seg.toNat}/{r.gran.toNat}@{r.start}+{r.data.length}")
               if PFile.dataRecs items == recs then "eq" else s!"ne:model[{show_ recs}]real[{show_ (PFile.dataRecs items)}]"
         -- (C) spec
-        let sr := specLoop (AddrSpec.init AddrSpec.manualSegs c) sts obs plan 0 false []
+        let sr := specLoop (AddrSpec.init AddrSpec.manualSegs c) sts obs plan 0 false false []
         let hasAlign0 := stmts.any fun st => match st.op with | .align n _ => decide (n = 0) | _ => false
         let sr : SpecRes :=
           if sg ≠ 0 then
